@@ -169,6 +169,24 @@ func C07(r *vf.Run) {
 								hist = append(hist, fmt.Sprintf("%s(%q)", m.Name, name))
 							}
 						}
+					case k == 5 && g.Intn(2) == 0:
+						// hand-assembled code emitted as a data block: a run of one-byte instructions (any
+						// length: listings break data into rows of 16), each one an instruction start
+						n := []int{1, 2, 15, 16, 17, 18, 31, 32, 33, 40}[g.Intn(10)]
+						if len(starts)+n > ninstr+40 {
+							n = 1
+						}
+						blk := make([]byte, n)
+						for i := range blk {
+							blk[i] = []byte{0xEA, 0xE8, 0xC8, 0x1A, 0x3A, 0x18, 0x38, 0xCA, 0x88}[g.Intn(9)]
+							starts = append(starts, e.PC()+uint32(i))
+						}
+						e.EmitBytes(blk)
+						hist = append(hist, fmt.Sprintf("EmitBytes(%d one-byte instructions)", n))
+						if g.Intn(3) == 0 {
+							e.Comment("hand-assembled")
+						}
+						cells["data-block-of-code"]++
 					case k == 4 && g.Intn(3) == 0:
 						if len(stack) < 3 && (len(stack) == 0 || g.Bool()) {
 							push()
